@@ -247,7 +247,17 @@ def monitor_case(ops, obs, which):
     cfg = parse_cfg(ops[0])
     o0 = parse_obs(obs[0])
     if o0.get("r") != "ok":
-        return viol
+        # C16: construction fails exactly when the capacity cannot hold the prefix (or the options are invalid:
+        # alignment not a power of two is refused with a panic by contract and not generated)
+        try:
+            res_, cap_ = int(cfg.get("reserved", "0")), int(cfg.get("cap", "0"))
+            unified_ = cfg.get("unify") == "1" or cfg.get("backend") == "file"
+            prefix_ = ((res_ + 7) // 8 * 8 + 32) if unified_ else res_ + 1
+            if o0.get("r", "").startswith(("io:", "Insufficient")) and cap_ >= prefix_ and cap_ > 0:
+                viol.append(("C16", "construction-refused", f"{ops[0].strip()} -> {o0.get('r')} although the capacity {cap_} holds the prefix ({prefix_} bytes)", 0))
+        except ValueError:
+            pass
+        return [v for v in viol if v[0] in which]
     doff = int(o0["doff"])
     kind = cfg["freelist"]
     maxalign = int(cfg.get("maxalign", "8"))
@@ -287,6 +297,10 @@ def monitor_case(ops, obs, which):
                     V("C14", "unchecked-put-panics", f"{ops[i].strip()} panicked with {bc_ - bl_} bytes of room (needs {leb_len(t[2], int(t[3]))})", i)
             if not (t[0] == "set_len") and not unchecked_ok and not (t[0] == "wres" and r.startswith("panic") and fstate.get("ro_state") and not fstate["closed"]):
                 V("C04", "panic", f"{ops[i].strip()} -> {r}", i)
+                if t[0] in BUF_OPS:
+                    V("C14", "buffer-op-panics", f"{ops[i].strip()} -> {r} (a buffer operation either stores the value or fails with InsufficientBuffer)", i)
+                if t[0].startswith("alloc_") and fstate.get("truncated"):
+                    V("C18", "alloc-panics-after-truncate", f"{ops[i].strip()} -> {r} after a truncate (allocations succeed exactly when they fit the new capacity)", i)
             # C09: a read-only arena rejects mutating calls with an error or the documented panic of
             # `reserved_slice_mut`, never with a crash
             if fstate.get("ro_state") and not fstate["closed"] and (r.startswith("sig") or (r.startswith("panic") and t[0] != "wres")):
@@ -377,6 +391,7 @@ def monitor_case(ops, obs, which):
                and (ro_mode or kvs.get("freelist") == cfg.get("freelist")) \
                and (kvs.get("cap") in ("same", "none") or (kvs.get("cap", "").isdigit() and int(kvs["cap"]) >= int(cfg.get("cap", "0")))):
                 V("C05", "own-file-refused", f"{ops[i].strip()} -> {r}: a file written and closed by this very history is refused with the identification it was created with", i)
+                V("C16", "own-file-refused", f"{ops[i].strip()} -> {r}: construction on the arena's own file fails although the capacity holds the prefix", i)
             if r == "ok" and kvs.get("cap", "").isdigit() and int(kvs["cap"]) < doff:
                 V("C16", "accepts-small-capacity", f"{ops[i].strip()} yields an arena although the capacity {kvs['cap']} cannot hold the prefix ({doff} bytes)", i)
             if r == "ok":
@@ -464,6 +479,8 @@ def monitor_case(ops, obs, which):
                     if S + N > 0:
                         if off % A != 0:
                             V("C03", "offset-align", f"alloc_aligned<{A},{S}>({N}) offset {off}", i)
+                            if fstate.get("truncated"):
+                                V("C18", "misplaced-after-truncate", f"alloc_aligned<{A},{S}>({N}) after a truncate was placed at the unaligned offset {off} (it does not fit where it must start)", i)
                         if cap < S + N:
                             V("C03", "capacity", f"alloc_aligned<{A},{S}>({N}) capacity {cap}", i)
                         if o.get("am", "0") != "0":
@@ -773,6 +790,12 @@ def monitor_case(ops, obs, which):
         # ---- C20 monotone (below 2^32)
         if op not in ("clear", "inc_discarded", "reopen") and di < pdi and pdi + 0 < U32 - (1 << 20):
             V("C20", "decrease", f"discarded decreased {pdi} -> {di} at {ops[i].strip()}", i)
+        # ---- C10 remainder rule: whatever is linked can hold a node plus the minimum segment size in force
+        if None not in fl and None not in pfl and not rewound and al <= cp and not fstate.get("tampered") and op not in ("reopen", "set_minseg", "clear"):
+            ms_ = int(o.get("ms", "0"))
+            for s_ in fl:
+                if s_ not in pfl and 0 < s_[1] < ms_:
+                    V("C10", "seg-below-minimum", f"{ops[i].strip()} linked the segment {s_}, smaller than the minimum segment size {ms_}", i)
         # ---- C10 list shape
         if None not in fl and not rewound and al <= cp and not fstate.get("tampered"):
             for k, s in enumerate(fl):
